@@ -13,7 +13,7 @@ func main() {
 	Main(&Prop{
 		Name:   "C02",
 		Header: pipe.Header + "Definition mm := mm02.\n",
-		Rule: "seeded random pipeline runs of the real batchers + extractor with regex matchers (optional, nested, alternated, repeated and named groups; Go's regexp package run independently is the oracle for group positions) and the always-matcher; extract expression reads {src} {line} {0} {1} {2} {3} {9} {@} and named groups; every Match is held until the input is exhausted, two garbage collections are forced, then Line and Indices are read again; files and scripted-reader sources as in C01 incl. the 250 ms time-flush path. " +
+		Rule: "seeded random pipeline runs of the real batchers + extractor with regex matchers (optional, nested, alternated, repeated and named groups; Go's regexp package run independently is the oracle for group positions) and the always-matcher; extract expression reads {src} {line} {0} {1} {2} {3} {9} {@} and named groups; every Match is held until the input is exhausted, two garbage collections are forced, then Line and Indices are read again; files (a fifth of the runs with gunzip on, about half of their files gzip-encoded) and scripted-reader sources as in C01 incl. the 250 ms time-flush path; dissect matchers with their regex equivalents as oracle. " +
 			"distinct = distinct (config, sources, expressions); non-trivial as in C01 (several batches, partial final batch, CRLF, no trailing newline, empty line, time flush, several workers).",
 		Gen: func(r *Rng, n int, tier string) []Case {
 			return pipe.MakeCases(pipe.GenC02(r, n, tier), pipe.Workdir())
